@@ -415,7 +415,7 @@ func c09Values1(c *fw.Ctx, part, parts int) {
 		ch := cc.Ch
 		vals := c09Values(ch)
 		other := s.chars[(ci+1)%len(s.chars)]
-		for _, v := range vals {
+		for vi, v := range vals {
 			cas := c09Case{Kind: "value", Ctor: cc.Name, Value: v.Label}
 			sig := ch.Format + "/" + v.Label
 			if len(v.Label) > 12 && ch.Format != characteristic.FormatString {
@@ -456,6 +456,9 @@ func c09Values1(c *fw.Ctx, part, parts int) {
 			}
 			if ch.IsWritable() {
 				c.Eval(1)
+				// the controller writes the NEXT value of the alphabet, so that the write changes what the application set
+				v := vals[(vi+1)%len(vals)]
+				cas := c09Case{Kind: "value", Ctor: cc.Name, Value: v.Label}
 				jv, _ := json.Marshal(v.V)
 				s.mu.Lock()
 				before := s.calls[ch]
